@@ -15,13 +15,6 @@ PATHS = ['/', '/cells', '/cells/*/id', '/nbformat', '/cells/*/cell_type', '/nbfo
          '/cells/*/attachments', '/cells/*/outputs']
 
 
-@vlib.classifier('merge-crash-site')
-def _cls_site(data, finding):
-    """exception class and the two innermost functions of the traceback, under the named output strategy"""
-    return (data.get('kind') == 'merge-raises' and data.get('site') == finding['param']['site']
-            and data.get('strategy', [None] * 3)[2] in finding['param']['output_strategy'])
-
-
 def extract_strategy_tables():
     from nbdime.merging.notebooks import notebook_merge_strategies
     rows = []
